@@ -40,6 +40,11 @@ THRESHOLD_BACKED = {
 def run(ctx):
   rule_bounds(ctx)
   rule_exact(ctx)
+  # "mixing them into a batch with weak artifacts does not change their verdict": results are mapped back to the artifact
+  # they were computed for (shared with C17)
+  from . import c17
+  ctx.borrow(c17.rule_byvalue, "R-C07-NEIGHBOUR")
+  ctx.expect("R-C07-NEIGHBOUR", 2, "BatchGCD element-wise + per-curve partitions")
   ctx.expect("R-C07-BOUNDS", 7, "seven thresholds")
   ctx.expect("R-C07-EXACT", 29, "29 registered checks")
 
